@@ -41,7 +41,10 @@ class PlainMonitor:
         self._cset_run = 0
         self._pclear_run = 0
 
-    def step(self, payload_in, pclear, set_, cset, clr, payload_out):
+    def step(self, payload_in, pclear, set_, cset, clr, payload_out, check_payload=True):
+        """clr: a clear() was issued in a clock in which the consumer observed the flag as set (consumption).
+        A clear() issued while the consumer observes the flag as clear is documented to have no effect and is
+        simply not reported here: any event it creates or destroys violates (iii)/(iv)/(v) later."""
         bad = []
         pend = self.pending
         if cset and pend is None:
@@ -57,7 +60,7 @@ class PlainMonitor:
                 if not cset:
                     bad.append(("consumption", "clear issued without an observation"))
             else:
-                if self.mailbox and payload_out != pend:
+                if self.mailbox and check_payload and payload_out != pend:
                     bad.append(("payload", f"delivered payload {payload_out}, sent {pend}"))
                 self.handovers += 1
                 self._seen_k = True
